@@ -101,6 +101,21 @@ func TestC12_CompactionPreservesReads(t *testing.T) {
 	})
 }
 
+func TestC12_L0ToL0(t *testing.T) {
+	runProp(t, propDef{id: "C12", part: "l0_to_l0",
+		rule: "as part 'compaction' but aimed at worker 0's L0->L0 compactions: 8-16 KiB memtables with inline values up to 1 KiB, 'l0big' macros (four sizeable L0 tables merged into one table of >= 2x the memtable size, which later L0->L0 picks leave out), 'l0l0'/'l0shape' macros, deletes and overwrites between them, young (not yet aged) tables next to aged ones. Non-trivial = >=2 L0->L0 compactions ran, with deletes or overwrites committed between them.",
+		cfg: GenCfg{DB: dbx.GenCfg{AllowManaged: true, KeepVersions: []int{1, 1, 2, 0}}, MinOps: 6, MaxOps: 30, MinKeys: 3, MaxKeys: 8,
+			Weights: map[string]int{"l0big": 3, "l0l0": 4, "l0shape": 3, "txn": 8, "begin": 2, "get": 2, "commit": 2, "flush": 3, "compact": 3, "backdate": 2, "del": 2, "set": 1, "reopen": 1},
+			FixSpec: func(s *dbx.Spec) {
+				s.MemTableSize = 1 << 13
+				s.ValueThreshold = 1024
+				s.VLogPercentile = 0
+				s.InMemory = false
+			}},
+		nontrivial: func(s Stats, p Program) bool { return s.L0toL0 >= 2 && (s.Deletes > 0 || s.Overwrites > 0) },
+	})
+}
+
 // ---- more properties on the same interpreter -------------------------------------------------------
 
 var wSnapshot = map[string]int{"l0shape": 2, "race": 2, "rwscan": 2, "txn": 10, "begin": 6, "set": 3, "del": 1, "get": 8, "gethold": 2, "itemread": 2, "iter": 6, "iterdrain": 2,
